@@ -233,7 +233,9 @@ def c20_jobs(tier, seed, bin_dir, replay):
     n = 1500 if tier == "quick" else 20000
     jobs = []
     T = "/repo/tests/"
-    qfiles = [T + "factoring-multisets.egg", T + "taylor51.egg", T + "web-demo/eqsolve.egg", T + "web-demo/towers-of-hanoi.egg"]
+    # order-revealing inputs of my own (type errors that list the overload alternatives they tried)
+    own = [os.path.join(VERIF, "witnesses", "C20", "overload-order.egg")]
+    qfiles = own + [T + "factoring-multisets.egg", T + "taylor51.egg", T + "web-demo/eqsolve.egg", T + "web-demo/towers-of-hanoi.egg"]
     tfiles = qfiles + [T + "python_array_optimize.egg", T + "math-microbenchmark.egg"]
     for mode in ["plain", "term", "proofs"]:
         files = [f for f in (qfiles if tier == "quick" else tfiles) if os.path.exists(f)]
